@@ -25,9 +25,9 @@ RULE = ('cases: seeded histories of 20-50 ops over a hierarchy built per case: A
         'an explicit tag; distinct by (hierarchy shape, op trace).')
 ASSUMPTIONS = ['Agent/Environment/world classes are process-global: every history restores them through the public API in a finally block',
                'tags are plain ints']
-FLOORS = {'quick': {'instances_numpy_tag': 827, 'class_observations': 100000, 'class_attach': 2000, 'class_detach': 400, 'rejected_duplicate_attach': 200,
-                    'rejected_absent_detach': 500, 'default_tag_changes': 2000, 'instances_default_tag': 1862,
-                    'instances_default_tag_nonzero': 310, 'instances_explicit_tag': 800, 'instances_explicit_zero_vs_default': 100,
+FLOORS = {'quick': {'classes_from_a_shared_namespace_dict': 702, 'instances_numpy_tag': 827, 'class_observations': 100000, 'class_attach': 2000, 'class_detach': 400, 'rejected_duplicate_attach': 200,
+                    'rejected_absent_detach': 500, 'default_tag_changes': 2000, 'instances_default_tag': 1832,
+                    'instances_default_tag_nonzero': 298, 'instances_explicit_tag': 800, 'instances_explicit_zero_vs_default': 100,
                     'environment_instances': 500, 'instances_added_to_environment': 1000, 'ops_on_library_classes': 2000, 'mid_history_classes': 500, 'same_named_classes': 300, 'big_many_classes': 2, 'big_many_class_components': 2,
                     'reach:Core._MetaAgent.add_class_component': 3000, 'reach:Core.Agent.__init__': 4600},
           'thorough': {'class_observations': 5000000}}
@@ -79,6 +79,7 @@ def case_history(ctx, case):
     trace = []
     flags = set()
     counter = [0]
+    shared_body = {'describe': lambda self: 'generated', 'kind': 'generated'}
 
     def new_class():
         base = rng.choice(classes)
@@ -88,7 +89,11 @@ def case_history(ctx, case):
             # a second, distinct class with the very same name (same factory called twice, a re-run cell, one Animal class per model)
             name = rng.choice(classes[len(lib):]).__name__
             ctx.count('same_named_classes')
-        K = type(name, (base,), {})
+        if rng.random() < 0.35:
+            K = type(name, (base,), shared_body)        # a family of generated classes built from ONE namespace dict (shared method bodies)
+            ctx.count('classes_from_a_shared_namespace_dict')
+        else:
+            K = type(name, (base,), {})
         classes.append(K)
         ref[K] = {'comps': {}, 'tag': 0}
         trace.append(('class', K.__name__, base.__name__))
